@@ -337,7 +337,9 @@ func (d *deflate) decompress(compressed []byte) ([]byte, error) {
 	d.reader.(flate.Resetter).Reset(&d.buf, nil)
 
 	d.out.Reset()
-	d.out.ReadFrom(d.reader)
+	if _, err := d.out.ReadFrom(d.reader); err != nil {
+		return nil, fmt.Errorf("deflate decode failed: %w", err)
+	}
 
 	return d.out.Bytes(), nil
 }
